@@ -322,6 +322,44 @@ Proof. vm_compute. reflexivity. Qed.
 Example ex_too_narrow : render_page 43 ex_null ex_page = Err ValueError.
 Proof. vm_compute. reflexivity. Qed.
 
+(* one labelled paragraph at width 30, label column 14, the label 21 characters of which 12 are visible: the first line may
+   be 29 + 9 long (it is 34), the others 29 (two of them are) *)
+Example ex_elem_raw :
+  match elem_raw 30 14 2 12 (render_option ex_force) with
+  | Ok raw => map (@length N) (split_on 10%N raw) = [34; 25; 29; 29; 23; 0]
+  | Err _ => False end.
+Proof. vm_compute. reflexivity. Qed.
+Example ex_sub_description : In (4, EPara DESC_SUB) ex_page.
+Proof. vm_compute. tauto. Qed.
+(* an application page: a visible, a hidden, a disabled and another visible command *)
+Definition ex_cmds : list appcmd :=
+  [{| ac_name := SERVER; ac_anonymous := false; ac_enabled := true; ac_hidden := false; ac_desc := DESC_SUB |};
+   {| ac_name := SECRET; ac_anonymous := false; ac_enabled := true; ac_hidden := true; ac_desc := DESC_SUB |};
+   {| ac_name := OLD; ac_anonymous := false; ac_enabled := false; ac_hidden := false; ac_desc := DESC_SUB |};
+   {| ac_name := ADD; ac_anonymous := false; ac_enabled := true; ac_hidden := false; ac_desc := DESC_FILE |}].
+Definition ex_app_page : layout :=
+  application_page [] (Some APP) (Some APP) (Some ([49;46;50]%N)) [ex_force; ex_level] ex_cmds (Some DESC_FILE).
+Example ex_available :
+  map (fun x => elem_label (snd x)) (filter (fun x => Nat.eqb (fst x) 2) (available_section ex_cmds)) = [C1 ++ ADD ++ C1E; C1 ++ SERVER ++ C1E].
+Proof. vm_compute. reflexivity. Qed.
+Example ex_app_complete : In (2, render_option ex_force) ex_app_page /\ In (2, ELab (C1 ++ ADD ++ C1E) DESC_FILE 2 true) ex_app_page.
+Proof. vm_compute. tauto. Qed.
+Example ex_app_needed_width : needed_width ex_app_page = 33%Z.
+Proof. vm_compute. reflexivity. Qed.
+Example ex_app_one_line : one_line_labels ex_app_page.
+Proof. apply application_page_one_line; cbn; repeat constructor; try nl_char. Qed.
+Example ex_app_renders : match render_page 33 ex_null ex_app_page with
+                         | Ok s => forallb (fun l => Nat.leb (length l) 32) (split_on 10%N s) && Nat.ltb (length ex_app_page) (length (split_on 10%N s))
+                         | Err _ => false end = true.
+Proof. vm_compute. reflexivity. Qed.
+(* the plain formatter refuses an unknown colour in a configured text: ValueError, the error pastel raises *)
+Example ex_markup_error :
+  match mk_formatter false [] with
+  | Ok f => render_page 80 f [(0, EPara ([60;102;103;61;122;122;62;120;60;47;62]%N))] = Err ValueError       (* <fg=zz>x</> *)
+            /\ render_page 80 f [(0, EPara ([60;102;103;61;114;101;100;62;120;60;47;62]%N))] = Ok ([120; 10]%N)   (* <fg=red>x</> *)
+  | Err _ => False end.
+Proof. vm_compute. split; reflexivity. Qed.
+
 (* ================= "help <path>" and "<path> --help" ================= *)
 From Clikit Require Import Model.Parser Model.Resolver Model.Switches Proofs.ResolverLemmas Proofs.HelpTargetLemmas.
 (* The page shown is the page of the help target (C09: help_switch).  The word "help" in front is dropped ... *)
